@@ -174,6 +174,30 @@ CHECKS = {
             'DESIGN.md section 5, C20'),
 }
 
+# what later rounds added to each check (appended to the level text)
+ADDENDA = {
+    'C01': ' Also: nesting at 19 depths from 100 to 100000 around the interpreter\'s recursion limits, a method returning a JSON-encodable value that is not in JSON normal form, dispatchers configured with pass-through middlewares / identity error handlers.',
+    'C02': ' Also: batches whose elements pass equal-valued arguments of different JSON types (1 / 1.0 / true), long batches at 21 lengths up to 1001, methods registered through each public route after they were first requested.',
+    'C03': ' Also: dispatchers with pass-through middlewares / identity handlers, deep nesting judged with the L5 leniency.',
+    'C04': ' Also: static and class methods of views, coroutine functions behind plain decorators.',
+    'C05': ' Also an aliasing oracle: containers of a deserialised message are modified in place and later deserialisations must be unaffected.',
+    'C06': ' Also the typed entry points (from_json on classes that have a code of their own, Response.from_json with such an error_cls).',
+    'C07': ' Also END TO END: the four real client backends (requests, httpx sync / async, aiohttp) through the three real web-framework integrations in-process; methods registered as coroutine-returning plain functions / callable objects / behind one shared decorator; a refused batch[...] repeated on the same wrapper.',
+    'C08': ' Also message-less / ill-typed error objects for registered codes and non-strict request containers.',
+    'C09': ' Also: two requests in a row through one long-lived client / strategy object, lenient clients whose transport hands back an error reply to a notification; a send beyond n+1 ends the execution and is reported.',
+    'C10': ' Also falsy / numeric ids and (not exhaustive over schedules) batches of 5..257 elements under three fixed completion orders.',
+    'C11': ' Also the four real client backends compared over 7 924 scripted HTTP answers (status x content type x body x raise_for_status x strict x default content type).',
+    'C12': ' Also requests failing with -32603 before the method body, the same handler / middleware object listed several times (identical and equal-but-distinct callables), suspending middlewares in concurrent batches.',
+    'C13': ' Also retention after cancelled asynchronous dispatches and 2-3 overlapping dispatch() calls on one AsyncDispatcher under every completion order.',
+    'C14': ' Also schemas that declare their dialect (draft-03 / -04 / -06 / -07 keywords), constraints in Annotated metadata, bodies that modify their arguments in place with every such call made twice, equal-comparing signatures under one validator.',
+    'C15': ' Also one decorator object applied to several functions, DEBUG logging switched on, names requested before they are registered through dispatcher.registry.',
+    'C16': ' Also opaque annotations (refusal accepted, omission not), error classes sharing a code, and the documents as SERVED by the aiohttp / flask integrations: every documented path#method is POSTed back to the same application and must reach its method.',
+    'C17': ' Also long-lived specification objects shared by all programs, method names differing only in separators / case (one open known finding), a context designated positionally under another name.',
+    'C18': ' Also charset / version parameters, request sequences of length 2-3 on one long-lived application (aiohttp replies read from what the response wrote to a recording payload writer), the process-wide default content type as a configuration.',
+    'C19': ' Also tracers whose handlers are instance attributes (set before / after the client is built) and two threads sharing one traced client under every schedule with <= 1/2 preemptions.',
+    'C20': ' Also callbacks that make nested calls through the same mocker (a watchdog turns an unanswered call into a violation) and by-name parameters called id / callback / method.',
+}
+
 NOT_YET = 'check not built yet (planned, see DESIGN.md section 5)'
 
 ALL = ['C%02d' % i for i in range(1, 21)]
@@ -192,7 +216,7 @@ def main():
             evidence_file='/verif/evidence/%s.json' % pid,
             replay_cmd_template='./check %s --replay {path}' % pid,
             engine='mc',
-            level_claimed=dict(category='model_checking', text=text, design_ref=ref),
+            level_claimed=dict(category='model_checking', text=text + ADDENDA.get(pid, ''), design_ref=ref),
             level_note=note,
             technique=tech,
         ))
